@@ -520,6 +520,9 @@ func (e *zzEnv) draw(src parser.Source, need *big.Int, asset string, out *[]zzDr
 			items = append(items, it.Allotment)
 		}
 		pn, pd, sumOK := e.portions(items)
+		if e.unsupported != "" {
+			return need, true
+		}
 		if !sumOK {
 			e.badAllot = true
 			return need, true
@@ -646,6 +649,9 @@ func (e *zzEnv) distribute(dst parser.Destination, amt *big.Int, asset string, o
 			items = append(items, it.Allotment)
 		}
 		pn, pd, sumOK := e.portions(items)
+		if e.unsupported != "" {
+			return
+		}
 		if !sumOK {
 			e.badAllot = true
 			return
